@@ -152,6 +152,15 @@ def encodeAll : List Nat → List Nat
 /-- RuneStart -/
 def runeStart (b : Nat) : Bool := !(0x80 ≤ b && b ≤ 0xBF)
 
+/-- where `DecodeLastRune` starts decoding: the nearest rune-start byte among the last 2…4 bytes,
+else one before the limit (clamped at 0) -/
+def lastStart (b : List Nat) : Nat :=
+  let n := b.length
+  if 2 ≤ n && runeStart (b.getD (n - 2) 0) then n - 2
+  else if 3 ≤ n && runeStart (b.getD (n - 3) 0) then n - 3
+  else if 4 ≤ n && runeStart (b.getD (n - 4) 0) then n - 4
+  else if 5 ≤ n then n - 5 else 0
+
 /-- `utf8.DecodeLastRune` / `DecodeLastRuneInString` -/
 def decodeLastRune (b : List Nat) : Nat × Nat :=
   let n := b.length
@@ -160,13 +169,24 @@ def decodeLastRune (b : List Nat) : Nat × Nat :=
     let last := b.getD (n - 1) 0
     if last < 0x80 then (last, 1)
     else
-      -- smallest k in 2..min 4 n with RuneStart (b[n-k]); else lim-1 clamped at 0
-      let start :=
-        if 2 ≤ n && runeStart (b.getD (n - 2) 0) then n - 2
-        else if 3 ≤ n && runeStart (b.getD (n - 3) 0) then n - 3
-        else if 4 ≤ n && runeStart (b.getD (n - 4) 0) then n - 4
-        else if 5 ≤ n then n - 5 else 0
-      let d := decodeRune (b.drop start)
-      if start + d.2 ≠ n then (0xFFFD, 1) else d
+      let d := decodeRune (b.drop (lastStart b))
+      if lastStart b + d.2 ≠ n then (0xFFFD, 1) else d
+
+/-- whatever `DecodeLastRune` returns is a code point -/
+theorem decodeLast_lt (b : List Nat) : (decodeLastRune b).1 < 0x110000 := by
+  unfold decodeLastRune
+  simp only
+  by_cases h0 : b.length = 0
+  · rw [if_pos h0]; decide
+  · rw [if_neg h0]
+    by_cases h1 : b.getD (b.length - 1) 0 < 0x80
+    · rw [if_pos h1]; simp only; omega
+    · rw [if_neg h1]
+      by_cases h2 : lastStart b + (decodeRune (b.drop (lastStart b))).2 ≠ b.length
+      · rw [if_pos h2]; decide
+      · rw [if_neg h2]
+        have := decode_scalar (b.drop (lastStart b))
+        unfold isScalar at this
+        omega
 
 end Uniseg.Utf8
